@@ -4,6 +4,7 @@
 (* A behaviour builds a FIX schema on top of a fixed skeleton (standard header, trailer and the      *)
 (* seven session messages the runtime needs) with the actions                                        *)
 (*   DeclField(type, realm?)   AddMessage(admin?)   AddComponent                                     *)
+(*   DeclPair / PutPair        a LENGTH field and its DATA field (number + 1), placed together in a message    *)
 (*   PutField(target)          place a declared field into a message, a component or a group         *)
 (*   UseComponent(target)      reference a component from a message or a group                       *)
 (*   AddGroup(target)          new repeating group (count field, first member) in a message or       *)
@@ -27,6 +28,7 @@ EXTENDS SchemaOps, Json
 
 CONSTANTS FieldNums,       \* numbers of the declarable body fields, in declaration order
           CountNums,       \* numbers of the declarable group count fields, in declaration order
+          PairNums,        \* numbers n of the declarable LENGTH fields; the DATA field of the pair is n + 1
           MsgTypes,        \* msgtypes of the messages that can be added, in order
           AdminTypes,      \* which of them are admin messages
           CompNames,       \* names of the components that can be added, in order
@@ -99,10 +101,11 @@ DeepOk(X) == \A c \in Containers(X) : DepthOf(c[2]) <= MaxDepth
 \* are declared first, then the components and the messages are created, then members are placed container by
 \* container (components before messages, in index order); inside one container members are appended in document
 \* order anyway.  Smaller schemas arise because Finish drops what was never filled in.
-AllDeclared == NBody = Len(FieldNums)
+NPairs == Cardinality(DeclaredNums \cap Range(PairNums))
+AllDeclared == NBody = Len(FieldNums) /\ NPairs = Len(PairNums)
 Rank(t) == IF t.w = "c" THEN t.i ELSE Len(CompNames) + t.i
-SetupDone == NBody = Len(FieldNums) /\ Len(S.msgs) - NSkelMsgs = Len(MsgTypes) /\ Len(S.comps) = Len(CompNames)
-NPlaced == Cardinality({ i \in DOMAIN hist : hist[i] \notin {"DeclField", "AddMessage", "AddAdminMessage", "AddComponent"} })
+SetupDone == AllDeclared /\ Len(S.msgs) - NSkelMsgs = Len(MsgTypes) /\ Len(S.comps) = Len(CompNames)
+NPlaced == Cardinality({ i \in DOMAIN hist : hist[i] \notin {"DeclField", "DeclPair", "AddMessage", "AddAdminMessage", "AddComponent"} })
 Step(X, label, rank) ==
     /\ ~done /\ rank >= cur
     /\ rank > 0 => (NPlaced < MaxSteps /\ SetupDone)
@@ -122,6 +125,13 @@ DeclField ==
           Step([S EXCEPT !.fields = Append(@, [num |-> num, name |-> "F" \o ToString(num), type |-> o.type, vals |-> o.vals])],
                "DeclField", 0)
 
+DeclPair ==
+    /\ NBody = Len(FieldNums) /\ NPairs < Len(PairNums)
+    /\ LET n == PairNums[NPairs + 1] IN
+       Step([S EXCEPT !.fields = @ \o << [num |-> n, name |-> "F" \o ToString(n) \o "Len", type |-> "LENGTH", vals |-> <<>>],
+                                         [num |-> n + 1, name |-> "F" \o ToString(n + 1), type |-> "DATA", vals |-> <<>>] >>],
+            "DeclPair", 0)
+
 MsgNameOf(mt) == "Msg" \o mt
 AddMessage ==
     /\ Len(S.msgs) - NSkelMsgs < Len(MsgTypes) /\ AllDeclared /\ Len(S.comps) = Len(CompNames)
@@ -138,6 +148,12 @@ AddComponent ==
 PutField ==
     \E t \in Pick(OpenTargets) : \E f \in Pick(FreeFields(t)), r \in Pick(BOOLEAN) :
         /\ Step(Put(t, FieldE(f, r)), IF t.p = <<>> THEN "PutField" ELSE "PutFieldInGroup", Rank(t))
+
+\* a length-prefixed data field: both fields together, at the top level of a message
+PutPair ==
+    \E t \in Pick({ x \in OpenTargets : x.w = "m" /\ x.p = <<>> /\ Len(S.msgs[x.i].items) + 1 < MaxItems }) :
+        \E n \in Pick((DeclaredNums \cap Range(PairNums)) \ Range(AllNumsSeq(Members(S, TItems(t))))), r \in Pick(BOOLEAN) :
+            Step([S EXCEPT !.msgs[t.i].items = @ \o <<FieldE(n, r), FieldE(n + 1, r)>>], "PutPair", Rank(t))
 
 UseComponent ==
     \E t \in Pick({ x \in OpenTargets : x.w = "m" }), c \in Pick(DOMAIN S.comps), r \in Pick(BOOLEAN) :
@@ -164,12 +180,12 @@ VariantSubs(sub) ==
     \cup (IF "order" \in Variants /\ Len(sub) >= 2 /\ sub[1].k = "f" /\ sub[2].k = "f"
           THEN { [v |-> "order", sub |-> [sub EXCEPT ![1] = sub[2], ![2] = sub[1]]] } ELSE {})
     \cup (IF "members" \in Variants
-          THEN { [v |-> "members", sub |-> [sub EXCEPT ![LastPlain(sub)].n = f]] : f \in IF LastPlain(sub) > 0 THEN FreeFor(sub) ELSE {} }
-               \cup { [v |-> "members", sub |-> Append(sub, FieldE(f, FALSE))] : f \in FreeFor(sub) }
+          THEN { [v |-> "members_replaced", sub |-> [sub EXCEPT ![LastPlain(sub)].n = f]] : f \in IF LastPlain(sub) > 0 THEN FreeFor(sub) ELSE {} }
+               \cup { [v |-> "members_added", sub |-> Append(sub, FieldE(f, FALSE))] : f \in FreeFor(sub) }
           ELSE {})
     \cup (IF "nested" \in Variants
-          THEN UNION { { [v |-> "nested", sub |-> SelectSeq(sub, LAMBDA e : e # sub[j])] }                       \* nested group dropped
-                       \cup { [v |-> "nested", sub |-> [sub EXCEPT ![j].sub = [sub[j].sub EXCEPT ![LastPlain(sub[j].sub)].n = f]]]  \* other member inside
+          THEN UNION { { [v |-> "nested_dropped", sub |-> SelectSeq(sub, LAMBDA e : e # sub[j])] }                       \* nested group dropped
+                       \cup { [v |-> "nested_member", sub |-> [sub EXCEPT ![j].sub = [sub[j].sub EXCEPT ![LastPlain(sub[j].sub)].n = f]]]  \* other member inside
                               : f \in IF LastPlain(sub[j].sub) > 0 THEN FreeFor(sub[j].sub) \ { sub[q].n : q \in DOMAIN sub } ELSE {} }
                        : j \in { q \in DOMAIN sub : sub[q].k = "g" } }
           ELSE {})
@@ -193,7 +209,7 @@ Finish == /\ ~done /\ NPlaced >= MinSteps
           /\ S' = Pruned /\ done' = TRUE /\ UNCHANGED <<hist, cur>>
 
 Init == S = Skeleton /\ hist = <<>> /\ done = FALSE /\ cur = 0
-Next == DeclField \/ AddMessage \/ AddComponent \/ PutField \/ UseComponent \/ AddGroup \/ ReuseCountField \/ Finish
+Next == DeclField \/ DeclPair \/ PutPair \/ AddMessage \/ AddComponent \/ PutField \/ UseComponent \/ AddGroup \/ ReuseCountField \/ Finish
 
 \* ---- properties (the compiler's group table is modelled in SchemaOps: Key, Winner, Compiled) ---------------------
 Valid == done => (ValidSchema(S) /\ DeepOk(S))
